@@ -3,3 +3,6 @@ TRUST = "Trusted: the Go toolchain, the harness's interval-set reference model (
 chk("C02", "exploration", "runtime monitoring: reference-model replay of seeded and small-scope-exhaustive mutation histories, state read through a hook view",
     "Every step of thousands of generated mutation histories (all storage forms, COW on/off, threshold ratchets, and every history of length <=2/3 over two boundary domains) is compared with an independent interval-set model through the raw container data and through the public API. Exploration, not proof: it judges the histories it ran.",
     TRUST, "DESIGN.md section 5 C02")
+chk("C01", "exploration", "runtime monitoring: differential execution of every op form against an interval-set model, operand storage hashed through a hook view, kind-pairing coverage matrix",
+    "Thousands of representation-aware operand pairs (all 3x3 chunk-kind pairings, 11 storage forms incl. copy-on-write and zero-copy, key-layout relations, threshold-steered results) run And/Or/Xor/AndNot static, in-place (clone, COW clone, COW argument, zero-copy receiver, same object) and the three shortcuts; results and operands are compared with the model via raw container data. All 65536 ordered pairs of subsets of an 8-value boundary domain are enumerated. The observed kind x kind x op x form matrix is reported.",
+    TRUST, "DESIGN.md section 5 C01")
